@@ -10,6 +10,7 @@ import (
 	_ "verifharness/mon/c06"
 	_ "verifharness/mon/c07"
 	_ "verifharness/mon/c08"
+	_ "verifharness/mon/c09"
 	_ "verifharness/mon/c10"
 	_ "verifharness/mon/c11"
 	_ "verifharness/mon/c12"
